@@ -576,7 +576,7 @@ NO_SHRINK = True
 def shards(tier, seed):
     specs = [{"kind": "levels", "part": i} for i in range(4)]
     specs.append({"kind": "options"})
-    n = 900 if tier == "thorough" else 110
+    n = 3500 if tier == "thorough" else 350
     for i in range(16):
         specs.append({"kind": "random", "seed": seed, "lo": i * n, "hi": (i + 1) * n})
     return specs
